@@ -64,6 +64,12 @@ CONFIGS = [
              "rules": [{"lhs": "start", "alts": [[{"k": "ref", "n": "e"}]]},
                        {"lhs": "e", "alts": [[T(2)], [T(0), {"k": "ref", "n": "e"}, T(1)]]}]},
      "tok": words("((", "(", ")", "x", "(x)", "x))", "x)))", "x)", "(x")},
+    # a lazy lexeme (ends at its first match) before a greedy one that starts alike: l0[lazy]: /a+/ ; T1: /a*b/
+    {"name": "lazy_then_greedy",
+     "lex": {"start": "start", "lexemes": [plus(lit("a")), {"k": "cat", "a": [{"k": "rep", "a": lit("a"), "m": 0, "n": -1}, lit("b")]}],
+             "lazy": [0],
+             "rules": [{"lhs": "start", "alts": [[{"k": "plus", "a": T(0)}, T(1)]]}]},
+     "tok": words("a", "b", "aa", "ab", "aab", "ba")},
     # one lexeme at two rows with different followers: X "," X "!"
     {"name": "list_bang",
      "lex": {"start": "start", "lexemes": [plus(cls("x")), lit(","), lit("!")],
